@@ -1,15 +1,329 @@
 import Tahoe.Base.Netstring
-import Tahoe.Base.Base32
-import Tahoe.Base.Base62
+import Tahoe.Base.Base32Lemmas
+import Tahoe.Base.Base62Lemmas
 import Tahoe.Base.Struct
-import Tahoe.Codec.Ueb
-import Tahoe.Codec.Records
-/-! C38 — on-disk and wire encodings round-trip (property theorems). -/
-namespace Tahoe.C38
-open Tahoe.Base
+import Tahoe.Codec.LemmasUeb
+import Tahoe.Codec.LemmasRecords
+/-!
+C38 — on-disk and wire encodings round-trip (property theorems; the models and helper lemmas live in
+`Tahoe/Base/*` and `Tahoe/Codec/*`).
 
-theorem netstring_decode_encode (s r : Bytes) :
-    Netstring.parseOne Netstring.strictLen (Netstring.enc s ++ r) = .ok (s, r) :=
-  Netstring.parseOne_enc s r
+For every codec: `decode (encode v) = v` under the explicit range guard, and canonicity
+`decode x = v → encode v = x` for the decoder with the canonical checks.  The decoders of the code
+as it is (`Netstring.split pyLen`, `Base32.a2b 1`, `Base62.a2b`, `Ueb.unpack asIs`) are modelled too;
+for each leniency a `…_asis_counterexample` shows by evaluation the malformed input it accepts, next
+to the fact that the checked decoder rejects the same input.
+
+Not proved here (tested by the monitor only): canonicity of the URI-extension-block decoder, i.e.
+`Ueb.unpack strict x = .ok d → (d.map packEntry).flatten = x` (the decoder is insensitive to key order,
+so the statement is about the entries in the order read).
+-/
+namespace Tahoe.C38
+open Tahoe.Base Tahoe.Base.Bytes Tahoe.Codec
+open Tahoe.Generated.Encodings
+
+/-! ### constants extracted from the source are the documented ones -/
+
+theorem base32_alphabet_pinned : base32_chars = Base32.alphabet ∧ base32_chars.length = 32 := by decide
+
+theorem base32_length_tables_pinned :
+    base32_NUM_OS_TO_NUM_QS = (List.range 5).map Base32.numQuintets ∧
+    ((List.range 8).filter Base32.legitLen).map (fun q => base32_NUM_QS_TO_NUM_OS.getD q 99)
+      = ((List.range 8).filter Base32.legitLen).map Base32.numOctets ∧
+    base32_NUM_QS_LEGIT = (List.range 8).map (fun q => if Base32.legitLen q then 1 else 0) := by decide
+
+theorem base62_alphabet_pinned : base62_chars = Base62.alphabet ∧ base62_chars.length = 62 := by decide
+
+theorem struct_formats_pinned :
+    Struct.parseFormat lease_IMMUTABLE_FORMAT = some Records.immLeaseFields ∧
+    Struct.parseFormat lease_MUTABLE_FORMAT = some Records.mutLeaseFields ∧
+    Struct.parseFormat imm_HEADER_FORMAT = some Records.immHeaderFields ∧
+    Struct.parseFormat mut_HEADER_FORMAT = some Records.mutHeaderFields ∧
+    Struct.parseFormat mut_HEADER_PACK_FORMAT = some Records.mutHeaderFields := by decide
+
+theorem record_sizes_pinned :
+    Struct.size Records.immLeaseFields = 72 ∧ lease_IMMUTABLE_FORMAT_size = 72 ∧ imm_LEASE_SIZE = 72 ∧
+    Struct.size Records.mutLeaseFields = 92 ∧ lease_MUTABLE_FORMAT_size = 92 ∧ mut_LEASE_SIZE = 92 ∧
+    Struct.size Records.immHeaderFields = 12 ∧ imm_HEADER_FORMAT_size = 12 ∧
+    Struct.size Records.mutHeaderFields = 100 ∧ mut_HEADER_SIZE = 100 ∧
+    mut_DATA_LENGTH_OFFSET = 84 ∧ mut_EXTRA_LEASE_OFFSET_FIELD = 92 ∧
+    mut_EXTRA_LEASE_OFFSET_VALUE = 100 + 4 * 92 ∧
+    imm_SCHEMA_VERSIONS = [1, 2] ∧ mut_SCHEMA_VERSIONS = [1, 2] := by decide
+
+/-! ### big-endian integers and `struct` records -/
+
+/-- `struct.unpack(">L", struct.pack(">L", n)) = n` for `n < 2^32`, likewise `>Q` for `n < 2^64` -/
+theorem be_decode_encode (w n : Nat) (h : n < 256 ^ w) : beVal (be w n) = n ∧ (be w n).length = w :=
+  ⟨beVal_be h, length_be w n⟩
+
+example : beVal (be 4 4294967295) = 4294967295 ∧ beVal (be 8 (2 ^ 64 - 1)) = 2 ^ 64 - 1 := by decide
+
+/-- every `w`-byte string is the encoding of its value: fixed-width integers are canonical -/
+theorem be_canonical (b : Bytes) : be b.length (beVal b) = b ∧ beVal b < 256 ^ b.length :=
+  ⟨be_beVal b, beVal_lt b⟩
+
+example : be 4 (beVal [0, 0, 1, 2]) = [0, 0, 1, 2] := by decide
+
+/-- outside the guard the value is silently reduced (which is why `struct.pack` range-checks: `packU`) -/
+theorem be_out_of_range_wraps (w n : Nat) : beVal (be w n) = n % 256 ^ w := beVal_be_mod w n
+
+example : Bytes.packU 4 4294967296 = none ∧ Bytes.packU 4 (-1) = none ∧ (Bytes.packU 4 4294967295).isSome := by
+  decide
+
+/-- **struct round trip**: values in range pack, and unpack to themselves -/
+theorem struct_decode_encode (fs : List Struct.Field) (vs : List Struct.Value) (h : Struct.FitsAll fs vs) :
+    ∃ b, Struct.pack fs vs = some b ∧ b.length = Struct.size fs ∧ Struct.unpack fs b = some vs := by
+  obtain ⟨b, h1, h2⟩ := Struct.unpack_pack fs vs h
+  exact ⟨b, h1, Struct.pack_length h1, h2⟩
+
+example : Struct.FitsAll [.u 4, .s 2] [.int 7, .bytes [1, 2]] := by decide
+
+/-- **struct canonicity and strictness**: only buffers of exactly `calcsize` bytes unpack, and what
+    unpacks re-packs to the same bytes -/
+theorem struct_canonical (fs : List Struct.Field) (b : Bytes) :
+    (∀ vs, Struct.unpack fs b = some vs → Struct.pack fs vs = some b ∧ Struct.FitsAll fs vs) ∧
+    (Struct.unpack fs b = none ↔ b.length ≠ Struct.size fs) :=
+  ⟨fun vs h => Struct.pack_unpack fs b vs h, Struct.unpack_eq_none_iff fs b⟩
+
+example : Struct.unpack [.u 2, .s 1] [1, 2, 3] = some [.int 258, .bytes [3]] ∧
+    Struct.unpack [.u 2, .s 1] [1, 2] = none := by decide
+
+/-! ### netstrings -/
+
+/-- **decode ∘ encode**: a netstring followed by anything is read back, leaving the remainder -/
+theorem netstring_decode_encode (s rest : Bytes) :
+    Netstring.parseOne Netstring.strictLen (Netstring.enc s ++ rest) = .ok (s, rest) :=
+  Netstring.parseOne_enc s rest
+
+example : Netstring.enc [97, 98, 99] = [51, 58, 97, 98, 99, 44] := by decide
+
+/-- **canonicity**: the checked decoder reads `s` (leaving `rest`) only from `netstring(s) ++ rest` -/
+theorem netstring_canonical (x s rest : Bytes)
+    (h : Netstring.parseOne Netstring.strictLen x = .ok (s, rest)) : x = Netstring.enc s ++ rest :=
+  Netstring.enc_of_parseOne h
+
+example : Netstring.parseOne Netstring.strictLen [51, 58, 97, 98, 99, 44, 120] = .ok ([97, 98, 99], [120]) := by
+  decide
+
+/-- **prefix-freeness / unique decodability from the front** -/
+theorem netstring_prefix_free (a b x y : Bytes) (h : Netstring.enc a ++ x = Netstring.enc b ++ y) :
+    a = b ∧ x = y :=
+  Netstring.enc_append_inj h
+
+/-- **unique decodability of concatenations** (what the tagged-hash and dirnode encodings rely on) -/
+theorem netstring_concat_unique (xs ys : List Bytes)
+    (h : (xs.map Netstring.enc).flatten = (ys.map Netstring.enc).flatten) : xs = ys :=
+  Netstring.concat_enc_inj xs ys h
+
+example : ([[1], []].map Netstring.enc).flatten ≠ ([[], [1]].map Netstring.enc).flatten := by decide
+
+/-- **`split_netstring` round trip**: `k ≥ 1` netstrings followed by any tail are read back exactly and
+    the returned position is where the tail starts -/
+theorem netstring_split_concat (ss : List Bytes) (tail : Bytes) (h : ss ≠ []) :
+    Netstring.split Netstring.strictLen ((ss.map Netstring.enc).flatten ++ tail) ss.length 0 none
+      = .ok (ss, ((ss.map Netstring.enc).flatten).length) :=
+  Netstring.split_concat ss tail h
+
+/-- the decimal length field: printing then strict parsing is the identity, and the strict parser
+    accepts only what the printer produces -/
+theorem decimal_roundtrip_and_canonical (n : Nat) (ds : Bytes) :
+    Netstring.parseDecStrict (Netstring.toDec n) = some n ∧
+    (Netstring.parseDecStrict ds = some n → Netstring.toDec n = ds) :=
+  ⟨Netstring.parseDecStrict_toDec n, Netstring.toDec_of_parseDecStrict⟩
+
+/-- The decoder that hands the length field to `int()` (the code before the fix
+    `fixes/C38-netstring-strict-length.diff`) accepts `b"03:abc,+2:de,"` and reads `[abc, de]` from it,
+    although that is not the encoding of `[abc, de]`; the checked decoder rejects it. -/
+theorem netstring_asis_counterexample :
+    let x : Bytes := [48, 51, 58, 97, 98, 99, 44, 43, 50, 58, 100, 101, 44]        -- b"03:abc,+2:de,"
+    Netstring.split Netstring.pyLen x 2 0 none = .ok ([[97, 98, 99], [100, 101]], 13) ∧
+    ([[97, 98, 99], [100, 101]].map Netstring.enc).flatten ≠ x ∧
+    Netstring.split Netstring.strictLen x 2 0 none = .error .value := by decide
+
+/-! ### base32 -/
+
+/-- **decode ∘ encode** -/
+theorem base32_decode_encode (os : Bytes) : Base32.a2b 0 (Base32.b2a os) = some os :=
+  Base32.a2b_b2a os
+
+example : Base32.b2a [104, 105] = [110, 98, 117, 113] := by decide      -- b2a(b"hi") = b"nbuq"
+
+/-- **canonicity**: with the corrected trailing-bits table, `a2b` accepts exactly the outputs of `b2a` -/
+theorem base32_canonical (cs os : Bytes) (h : Base32.a2b 0 cs = some os) : Base32.b2a os = cs :=
+  Base32.b2a_of_a2b h
+
+example : Base32.a2b 0 [110, 98, 117, 113] = some [104, 105] := by decide
+
+/-- The table `s8` as the code builds it (`4-(bits%5)`, one bit short) lets `a2b(b"ac")` through and
+    reads it as `b"\x00"`, whose encoding is `b"aa"`; with `5-(bits%5)`
+    (`fixes/C38-base32-trailing-bits.diff`) it is rejected. -/
+theorem base32_asis_counterexample :
+    Base32.a2b 1 [97, 99] = some [0] ∧ Base32.b2a [0] = [97, 97] ∧ Base32.a2b 0 [97, 99] = none := by decide
+
+/-! ### base62 -/
+
+/-- **decode ∘ encode** (already true of the unchecked `a2b`) -/
+theorem base62_decode_encode (os : Bytes) :
+    Base62.a2b (Base62.b2a os) = os ∧ Base62.a2bStrict (Base62.b2a os) = some os :=
+  ⟨Base62.a2b_b2a os, Base62.a2bStrict_b2a os⟩
+
+example : Base62.b2a [104, 101, 108, 108, 111] = [55, 116, 81, 76, 70, 72, 122] := by decide   -- b"7tQLFHz"
+
+/-- **canonicity** of the checked decoder (`fixes/C38-base62-canonical-a2b.diff`) -/
+theorem base62_canonical (cs os : Bytes) (h : Base62.a2bStrict cs = some os) : Base62.b2a os = cs :=
+  Base62.b2a_of_a2bStrict h
+
+example : Base62.a2bStrict [55, 116, 81, 76, 70, 72, 122] = some [104, 101, 108, 108, 111] := by decide
+
+/-- the decoder determines the byte count from the character count -/
+theorem base62_lengths (n : Nat) : Base62.numOctets (Base62.numChars n) = n :=
+  Base62.numOctets_numChars n
+
+/-- `a2b` as it is validates nothing: `b"!!!!"` (no alphabet character, impossible length) is read as
+    `f99b`, and `b"zz"` (value 3843 does not fit one byte) as `03`; the checked decoder rejects both. -/
+theorem base62_asis_counterexample :
+    Base62.a2b [33, 33, 33, 33] = [249, 155] ∧ Base62.b2a [249, 155] ≠ [33, 33, 33, 33] ∧
+    Base62.a2bStrict [33, 33, 33, 33] = none ∧
+    Base62.a2b [122, 122] = [3] ∧ Base62.b2a [3] ≠ [122, 122] ∧ Base62.a2bStrict [122, 122] = none := by
+  decide
+
+/-! ### URI extension block -/
+
+/-- **decode ∘ encode**: `unpack_extension(pack_extension(d)) = d` for dictionaries whose keys are
+    distinct and match `[a-zA-Z_\-]+`, with integers exactly under the five integer keys.
+    (A dictionary is an entry list; the result is listed in key order.) -/
+theorem ueb_decode_encode (d : Ueb.Dict) (hk : ∀ e ∈ d, Ueb.KeyStrict e.1)
+    (hnd : (d.map Prod.fst).Nodup) (ht : ∀ e ∈ d, Ueb.Typed e) :
+    ∃ p, Ueb.pack d = some p ∧ Ueb.unpack Ueb.strict p = .ok (Ueb.sortDict d) :=
+  Ueb.unpack_pack d hk hnd ht
+
+example :
+    let size : Bytes := [115, 105, 122, 101]
+    let cn : Bytes := [99, 110]
+    Ueb.pack [(size, .int 12), (cn, .bytes [120])]
+      = some [99, 110, 58, 49, 58, 120, 44, 115, 105, 122, 101, 58, 50, 58, 49, 50, 44] ∧   -- cn:1:x,size:2:12,
+    Ueb.unpack Ueb.strict [99, 110, 58, 49, 58, 120, 44, 115, 105, 122, 101, 58, 50, 58, 49, 50, 44]
+      = .ok [(cn, .bytes [120]), (size, .int 12)] := by decide
+
+/-- entries in any order are read back exactly (the decoder does not depend on the sorting) -/
+theorem ueb_decode_entries (es : Ueb.Dict) (hk : ∀ e ∈ es, Ueb.KeyStrict e.1)
+    (hnd : (es.map Prod.fst).Nodup) (ht : ∀ e ∈ es, Ueb.Typed e) :
+    Ueb.unpack Ueb.strict ((es.map Ueb.packEntry).flatten) = .ok es :=
+  Ueb.unpack_entries es hk hnd ht
+
+/-- `unpack_extension` as it is (lengths and integer values through `int()`, repeated keys overwrite):
+    `size:02:12,` and `size:2: 7,` are read as 12 and 7, `size:1:5,size:1:6,` as 6, and a negative
+    length indexes from the end (`k:-5:XY,:0:,`).  With `fixes/C38-ueb-strict-unpack.diff` all four are
+    rejected. -/
+theorem ueb_asis_counterexample :
+    -- size:02:12,
+    Ueb.unpack Ueb.asIs [115, 105, 122, 101, 58, 48, 50, 58, 49, 50, 44] = .ok [([115, 105, 122, 101], .int 12)] ∧
+    Ueb.unpack Ueb.strict [115, 105, 122, 101, 58, 48, 50, 58, 49, 50, 44] = .error .value ∧
+    -- size:2: 7,
+    Ueb.unpack Ueb.asIs [115, 105, 122, 101, 58, 50, 58, 32, 55, 44] = .ok [([115, 105, 122, 101], .int 7)] ∧
+    Ueb.unpack Ueb.strict [115, 105, 122, 101, 58, 50, 58, 32, 55, 44] = .error .value ∧
+    -- size:1:5,size:1:6,
+    Ueb.unpack Ueb.asIs [115, 105, 122, 101, 58, 49, 58, 53, 44, 115, 105, 122, 101, 58, 49, 58, 54, 44]
+      = .ok [([115, 105, 122, 101], .int 6)] ∧
+    Ueb.unpack Ueb.strict [115, 105, 122, 101, 58, 49, 58, 53, 44, 115, 105, 122, 101, 58, 49, 58, 54, 44]
+      = .error .value ∧
+    -- k:-5:XY,:0:,
+    Ueb.unpack Ueb.asIs [107, 58, 45, 53, 58, 88, 89, 44, 58, 48, 58, 44]
+      = .ok [([107], .bytes [88, 89]), ([], .bytes [])] ∧
+    Ueb.unpack Ueb.strict [107, 58, 45, 53, 58, 88, 89, 44, 58, 48, 58, 44] = .error .value :=
+  ⟨by decide, by decide, by decide, by decide, by decide, by decide, by decide, by decide⟩
+
+/-! ### lease records -/
+
+/-- **decode ∘ encode**, immutable-container lease record (`>L32s32sL`): guard = 32-bit owner number
+    and expiration time, 32-byte secrets; the node id is not stored -/
+theorem lease_immutable_decode_encode (l : Records.Lease) (h : Records.LeaseFits l) :
+    ∃ b, Records.toImmutable l = some b ∧ b.length = 72 ∧
+      Records.fromImmutable b = some { l with nodeid := none } :=
+  Records.fromImmutable_toImmutable l h
+
+example : Records.LeaseFits ⟨1, List.replicate 32 7, List.replicate 32 9, 4294967295, none⟩ := by decide
+
+/-- **canonicity and strictness**: exactly the 72-byte strings decode, each to a lease that re-encodes
+    to the same bytes -/
+theorem lease_immutable_canonical (b : Bytes) :
+    (∀ l, Records.fromImmutable b = some l → Records.toImmutable l = some b ∧ Records.LeaseFits l) ∧
+    (Records.fromImmutable b = none ↔ b.length ≠ 72) :=
+  ⟨fun l h => ⟨(Records.toImmutable_fromImmutable b l h).1, (Records.toImmutable_fromImmutable b l h).2.1⟩,
+   Records.fromImmutable_none_iff b⟩
+
+/-- **decode ∘ encode**, mutable-container lease record (`>LL32s32s20s`) -/
+theorem lease_mutable_decode_encode (l : Records.Lease) (nid : Bytes) (h : Records.LeaseFits l)
+    (hn : l.nodeid = some nid) (hl : nid.length = 20) :
+    ∃ b, Records.toMutable l = some b ∧ b.length = 92 ∧ Records.fromMutable b = some l :=
+  Records.fromMutable_toMutable l nid h hn hl
+
+example : (Records.toMutable ⟨1, List.replicate 32 7, List.replicate 32 9, 5, some (List.replicate 20 3)⟩).isSome := by
+  decide
+
+theorem lease_mutable_canonical (b : Bytes) :
+    (∀ l, Records.fromMutable b = some l → Records.toMutable l = some b ∧ Records.LeaseFits l) ∧
+    (Records.fromMutable b = none ↔ b.length ≠ 92) :=
+  ⟨fun l h => Records.toMutable_fromMutable b l h, Records.fromMutable_none_iff b⟩
+
+/-- out-of-range values are refused by the encoder rather than wrapped -/
+theorem lease_out_of_range_rejected :
+    Records.toImmutable ⟨4294967296, List.replicate 32 0, List.replicate 32 0, 0, none⟩ = none ∧
+    Records.toImmutable ⟨0, List.replicate 32 0, List.replicate 32 0, -1, none⟩ = none := by decide
+
+/-- **v2 (hashed-secret) lease schema**: what is read back holds the owner number, the expiration time
+    and the *hashes* of the secrets; a candidate secret is accepted iff its hash equals the stored hash —
+    hence, for an injective hash, iff it is the secret that was encoded.  `h` stands for blake2b-256. -/
+theorem lease_v2_decode_encode (h : Bytes → Bytes) (l : Records.Lease)
+    (hfit : Records.LeaseFits (Records.hashLease h l)) (hinj : Function.Injective h) :
+    ∃ b stored, Records.toImmutableV2 h l = some b ∧ Records.fromImmutable b = some stored ∧
+      stored.owner = l.owner ∧ stored.expire = l.expire ∧
+      (∀ cand, Records.isRenewSecretV2 h stored cand = true ↔ cand = l.renew) ∧
+      (∀ cand, Records.isCancelSecretV2 h stored cand = true ↔ cand = l.cancel) := by
+  obtain ⟨b, hb, _, hd⟩ := Records.fromImmutable_toImmutable (Records.hashLease h l) hfit
+  refine ⟨b, _, hb, hd, rfl, rfl, ?_, ?_⟩
+  · intro cand
+    simp only [Records.isRenewSecretV2, Records.hashLease, beq_iff_eq]
+    exact ⟨fun e => (hinj e).symm, fun e => by rw [e]⟩
+  · intro cand
+    simp only [Records.isCancelSecretV2, Records.hashLease, beq_iff_eq]
+    exact ⟨fun e => (hinj e).symm, fun e => by rw [e]⟩
+
+-- the hypotheses are satisfiable: the identity is injective and keeps 32-byte secrets 32 bytes long
+example : Function.Injective (id : Bytes → Bytes) ∧
+    Records.LeaseFits (Records.hashLease id ⟨1, List.replicate 32 7, List.replicate 32 9, 5, none⟩) :=
+  ⟨fun _ _ h => h, by decide⟩
+
+/-! ### share-container headers -/
+
+/-- **immutable container header** (`>LLL`): the version and a zero lease count are read back; the
+    second field holds `min(2^32-1, max_size)` — saturated, and documented as unused by the reader. -/
+theorem immutable_header_decode_encode (v m : Int) (rest : Bytes) (hv : 0 ≤ v) (hv2 : v.toNat < 256 ^ 4)
+    (hm : 0 ≤ m) :
+    ∃ b, Records.immHeader v m = some b ∧ b.length = 12 ∧
+      Records.readImmHeader (b ++ rest) = some (v.toNat, (min 4294967295 m).toNat, 0) :=
+  Records.readImmHeader_immHeader v m rest hv hv2 hm
+
+/-- the saturation, on an example: `max_size = 2^32 + 5` is stored as `2^32 - 1` -/
+theorem immutable_header_saturates :
+    Records.immHeader 2 4294967301 = some [0, 0, 0, 2, 255, 255, 255, 255, 0, 0, 0, 0] ∧
+    Records.readImmHeader [0, 0, 0, 2, 255, 255, 255, 255, 0, 0, 0, 0] = some (2, 4294967295, 0) ∧
+    Records.readImmHeader [0, 0, 0, 2, 255, 255, 255, 255, 0, 0, 0] = none := by decide
+
+/-- **mutable container header** (`>32s20s32sQQ` + four blank lease slots + `>L` 0): the magic check
+    passes for the version written, and node id and write enabler are read back exactly; data length 0,
+    extra-lease offset 468 -/
+theorem mutable_header_decode_encode (version : Nat) (nid we : Bytes) (hv : version = 1 ∨ version = 2)
+    (hn : nid.length = 20) (hw : we.length = 32) :
+    ∃ file magic, Records.mutHeader version nid we = some file ∧ Records.magicOf version = some magic ∧
+      Records.readMutHeader file = .ok (magic, nid, we, 0, 468) ∧ Records.mutSchemaOf file = some version :=
+  Records.readMutHeader_mutHeader version nid we hv hn hw
+
+example : (Records.mutHeader 2 (List.replicate 20 1) (List.replicate 32 2)).isSome := by decide
+
+/-- a header whose magic is not one of the known ones is rejected, as is a truncated one -/
+theorem mutable_header_rejects_malformed :
+    Records.readMutHeader (List.replicate 100 0) = .error .assertion ∧
+    Records.readMutHeader (List.replicate 99 0) = .error .struct := ⟨by decide, by decide⟩
 
 end Tahoe.C38
